@@ -67,7 +67,7 @@ Example ex_line_shapes :
      Some (mk_gpat false false [CDStar; CSimple (map WLit [102; 111; 111; 46]%N)]).
 Proof. vm_compute. auto. Qed.
 
-(* 6. KNOWN FINDING ClassMatchesSeparator (D15): the full statement "rg's verdict for a line = git's" is false
+(* 6. KNOWN FINDING ClassMatchesSeparator (found by this check; coordinator to number): the full statement "rg's verdict for a line = git's" is false
       for a bracket class that admits '/': line `a[!b]c`, file `c` in directory `a`. *)
 Theorem class_crosses_separator_refuted :
   exists (line : bytes) (comps : list bytes),
@@ -86,7 +86,7 @@ Print Assumptions brace_alternation_refuted.
 
 (* add_line's flags on the documented line forms (computation): negation + directory-only + anchoring,
    implicit `**/`, `/**` => `/**/*`, comment, escaped trailing blank followed by blanks (defect D11, repaired),
-   escaped backslash before the trailing slash (defect D16, repaired) *)
+   escaped backslash before the trailing slash (escaped-backslash defect found by this check, repaired) *)
 Example ex_add_line_flags :
   (match add_line false [33; 47; 97; 47]%N with            (* "!/a/" *)
    | LGlob g => (ig_whitelist g, ig_only_dir g, ig_actual g) = (true, true, [97%N]) | _ => False end)
